@@ -181,3 +181,22 @@ Proof.
   - destruct (reg_names_ok (wreg20 sp)); auto; discriminate.
   - destruct (reg_names_ok (wreg21 sp)); auto; discriminate.
 Qed.
+
+(* the C03 direction carries the same registry comparison *)
+Lemma spec_refines_reg_of sp w v : spec_refines sp w = true -> reg_of w v = reg_of sp v.
+Proof.
+  unfold spec_refines, accept_failures. intros H.
+  destruct (flat_map _ (wclasses sp) ++ _) eqn:E; try discriminate.
+  apply app_eq_nil in E. destruct E as [_ E]. apply app_eq_nil in E. destruct E as [E1 E2].
+  unfold registry_failures in *.
+  repeat match goal with
+         | H : _ ++ _ = [] |- _ => apply app_eq_nil in H; destruct H
+         end.
+  repeat match goal with
+         | H : (if ?b then [] else _) = [] |- _ => destruct b eqn:?; try discriminate; clear H
+         end.
+  repeat match goal with
+         | H : pairs_eqb _ _ = true |- _ => apply pairs_eqb_eq in H
+         end.
+  destruct v; simpl; [destruct (wreg20 w), (wreg20 sp) | destruct (wreg21 w), (wreg21 sp)]; simpl in *; congruence.
+Qed.
